@@ -192,7 +192,13 @@ void vp_c06_sym_string_exact(char *out, uint32_t n) { ASSERT(n <= 8, "symbolic s
 #ifndef C06_CFG5
 #define C06_CFG5 0
 #endif
-uint32_t vp_cfg(uint32_t i) { return i == 0 ? C06_CFG0 : i == 1 ? C06_CFG1 : i == 2 ? C06_CFG2 : i == 3 ? C06_CFG3 : i == 4 ? C06_CFG4 : C06_CFG5; }
+#ifndef C06_CFG6
+#define C06_CFG6 0
+#endif
+#ifndef C06_CFG7
+#define C06_CFG7 0
+#endif
+uint32_t vp_cfg(uint32_t i) { return i == 0 ? C06_CFG0 : i == 1 ? C06_CFG1 : i == 2 ? C06_CFG2 : i == 3 ? C06_CFG3 : i == 4 ? C06_CFG4 : i == 5 ? C06_CFG5 : i == 6 ? C06_CFG6 : C06_CFG7; }
 uint32_t vp_diglen(void) { return C06_DIGLEN; }
 /* QXmpp::Private::serializeXml(const void*, void(*)(const void*, QXmlStreamWriter*)) needs a QXmlStreamWriter over a QByteArray
    device (not modelled).  CUT: the bytes the managers send are not inspected; calls are counted.  (Calling the toXml callback
